@@ -34,6 +34,11 @@ def _crystals():
         "tet2w": (lambda: crystal.Crystal(A * np.diag([1., 1., 1.6]),
                                           [np.zeros(3), np.array([.5, .5, .35]), np.array([.5, .5, .65])]), 0.95),
         # two Wyckoff sets whose site indices interleave (sitelist [[0, 2], [1, 3]]); origin states too
+        # diffusing species is chemistry index 1 (oxygen sublattice of NbO, three sites, one Wyckoff set)
+        "nbo": (lambda: crystal.Crystal(A * np.eye(3),
+                                        [[np.array([0, .5, .5]), np.array([.5, 0, .5]), np.array([.5, .5, 0])],
+                                         [np.array([.5, 0, 0]), np.array([0, .5, 0]), np.array([0, 0, .5])]],
+                                        ["Nb", "O"]), 0.80),
         "rect4i": (lambda: crystal.Crystal(A * np.array([[1., 0.], [0., 1.6]]),
                                            [np.array([0., .2]), np.array([.5, .35]), np.array([0., .8]),
                                             np.array([.5, .65])]), 0.85),
@@ -42,11 +47,12 @@ def _crystals():
 
 CRYSTALS = _crystals()
 CHEAP = ("sc", "fcc", "bcc", "diamond", "square", "tria", "honey", "triadisp", "rect2w")
-QUICK_WORLDS = ("sc", "fcc", "bcc", "hcp", "diamond", "square", "tria", "honey", "b2disp", "triadisp", "rect2w", "rect4i")
+QUICK_WORLDS = ("sc", "fcc", "bcc", "hcp", "diamond", "square", "tria", "honey", "b2disp", "triadisp", "rect2w", "rect4i", "nbo")
 ALL_WORLDS = QUICK_WORLDS + ("tet2w",)
 if os.environ.get("CALCSIM_WORLDS"):      # A/B experiments only (e.g. "was this caught before world X existed?")
     QUICK_WORLDS = ALL_WORLDS = tuple(os.environ["CALCSIM_WORLDS"].split(","))
 CHEM = 0
+CHEMS = {"nbo": 1}       # world -> chemistry index of the diffusing species (default 0)
 
 
 class SimFile(io.RawIOBase):
@@ -122,13 +128,14 @@ class WorldData(object):
         make, cut = CRYSTALS[name]
         self.crys = make()
         self.cut = cut
-        self.sitelist = self.crys.sitelist(CHEM)
-        self.jumpnetwork = self.crys.jumpnetwork(CHEM, cut)
+        self.chem = CHEMS.get(name, CHEM)
+        self.sitelist = self.crys.sitelist(self.chem)
+        self.jumpnetwork = self.crys.jumpnetwork(self.chem, cut)
         self.pristine = {}
         self.images = {}
 
     def construct(self, N, NGF):
-        return OnsagerCalc.VacancyMediated(self.crys, CHEM, self.sitelist, self.jumpnetwork, N, NGFmax=NGF)
+        return OnsagerCalc.VacancyMediated(self.crys, self.chem, self.sitelist, self.jumpnetwork, N, NGFmax=NGF)
 
     def reference(self, N, NGF):
         key = (int(N), int(NGF))
